@@ -128,6 +128,22 @@ def run(res, tier, seed, replay):
         if e2e.sha256_file(ob) != ref:
             res.violation("double-build:" + tag, "two cold builds of the same module (%s) from different source directories, TMPDIRs and caches differ: %s vs %s"
                           % (tag, ref[:16], e2e.sha256_file(ob)[:16]), {"files": FILES, "flags": gflags, "gogarble": G["GOGARBLE"]})
+        # the same pair once more with a relative -debugdir: the flag is spelled identically in both builds, garble makes it
+        # absolute, and nothing of that location may reach the binary
+        if gflags == cfgs[0]:
+            cda = e2e.module_cold_caches(garble, "c03da", gflags, G)
+            cdb = e2e.module_cold_caches(garble, "c03db", gflags, G)
+            rda, oda, _ = build(garble, FILES, "demo.test/app", "./cmd/target", "da", gflags + ["-debugdir=dbgout"], G, "srcA", cda)
+            rdb, odb, _ = build(garble, FILES, "demo.test/app", "./cmd/target", "db", gflags + ["-debugdir=dbgout"], G, "some/deeper/srcB", cdb)
+            builds += 2
+            cda.remove()
+            cdb.remove()
+            if rda.returncode != 0 or rdb.returncode != 0:
+                res.violation("build-debugdir:" + tag, "build with -debugdir fails: %s" % (rda.stderr + rdb.stderr).decode()[-400:], {"files": FILES, "flags": gflags})
+            elif e2e.sha256_file(oda) != e2e.sha256_file(odb) or e2e.sha256_file(oda) != ref:
+                res.violation("double-build-debugdir:" + tag, "two cold builds (%s -debugdir=dbgout) of the same module from different source directories differ from each other "
+                              "or from the build without -debugdir: %s / %s / %s" % (tag, e2e.sha256_file(oda)[:16], e2e.sha256_file(odb)[:16], ref[:16]),
+                              {"files": FILES, "flags": gflags + ["-debugdir=dbgout"], "gogarble": G["GOGARBLE"]})
         # warm rebuild on the same caches, other -p
         rw, ow, _ = build(garble, FILES, "demo.test/app", "./cmd/target", "a2", gflags, dict(G, GOMAXPROCS="2"), "srcA", ca)
         builds += 1
